@@ -74,6 +74,7 @@ func runC16(ctx *Ctx) {
 		data := distiller.VerifPagination(d.Root, page)
 		payload, impl := paginationCase(data)
 		pn.add(payload, impl, c)
+		paginationPremises(pn, data)
 		if data.Param.IsPageNumber {
 			rep.hist("pagenum:detected")
 		}
